@@ -212,6 +212,9 @@ def run_case(ctx, case):
                 "upd": lambda: ConfigSecurityCodeEncryptor(code)}[nm]()
     o = Outcome("roundtrip-ok", True)
     s = io.StringIO()
+    # the caller's encryptor objects are created once and used for writing AND reading (as in the appnotes)
+    objs = {nm: mk(nm) for nm in ("cust", "ecc", "upd")}
+    mk = lambda nm: objs[nm]
     try:
         with DetRandom("c02-%r" % (case,), preset=preset):
             bec.write_file(s, [mk("cust"), mk("ecc")])
@@ -228,6 +231,14 @@ def run_case(ctx, case):
     if r.session_key != key:
         o.cls = "differs"
         o.viol("read|session-key", "session key read as %s, written %s" % (r.session_key.hex(), key.hex()))
+    # reading the same text a second time with the same decryptor objects gives the same result
+    try:
+        r2 = Bec2File.read_file(io.StringIO(text), [mk(n) for n in decs])
+        if r2.session_key != r.session_key or FX.view(r2.bf3file) != FX.view(r.bf3file):
+            o.viol("read|second-read-differs", "reading the same file twice with the same decryptor objects gives different results")
+    except Exception as e:
+        o.cls = "read-raises"
+        return o.viol("read|second-read-raises|%s" % type(e).__name__, "the second read of the same file with the same decryptor objects raised %r" % e)
     got_blocks = list(r.auth_blocks.values())
     if list(r.auth_blocks.keys()) != [b.tag for b in got_blocks] or len(got_blocks) != len(order):
         o.viol("read|block-list", "auth blocks read: %r, written order %r" % (got_blocks, order))
